@@ -1,0 +1,172 @@
+//go:build verif
+
+package nebula
+
+// Thin exports for the verification harness engine `connmgr` (add-only, no behaviour).
+
+import (
+	"net/netip"
+	"time"
+
+	"github.com/slackhq/nebula/cert"
+	"github.com/slackhq/nebula/config"
+	"github.com/slackhq/nebula/overlay/overlaytest"
+	"github.com/slackhq/nebula/test"
+	"github.com/slackhq/nebula/udp"
+)
+
+// verifLocalCert is a local certificate of which the connection manager only reads the version and the signature.
+type verifLocalCert struct {
+	version cert.Version
+	sig     []byte
+}
+
+func (d *verifLocalCert) Version() cert.Version                              { return d.version }
+func (d *verifLocalCert) Curve() cert.Curve                                  { return cert.Curve_CURVE25519 }
+func (d *verifLocalCert) Groups() []string                                   { return nil }
+func (d *verifLocalCert) IsCA() bool                                         { return false }
+func (d *verifLocalCert) Issuer() string                                     { return "" }
+func (d *verifLocalCert) Name() string                                       { return "verif" }
+func (d *verifLocalCert) Networks() []netip.Prefix                           { return nil }
+func (d *verifLocalCert) NotAfter() time.Time                                { return time.Time{} }
+func (d *verifLocalCert) NotBefore() time.Time                               { return time.Time{} }
+func (d *verifLocalCert) PublicKey() []byte                                  { return nil }
+func (d *verifLocalCert) MarshalPublicKeyPEM() []byte                        { return nil }
+func (d *verifLocalCert) Signature() []byte                                  { return d.sig }
+func (d *verifLocalCert) UnsafeNetworks() []netip.Prefix                     { return nil }
+func (d *verifLocalCert) MarshalForHandshakes() ([]byte, error)              { return nil, nil }
+func (d *verifLocalCert) Sign(curve cert.Curve, key []byte) error            { return nil }
+func (d *verifLocalCert) CheckSignature(key []byte) bool                     { return true }
+func (d *verifLocalCert) Expired(t time.Time) bool                           { return false }
+func (d *verifLocalCert) CheckRootConstraints(signer cert.Certificate) error { return nil }
+func (d *verifLocalCert) VerifyPrivateKey(curve cert.Curve, key []byte) error {
+	return nil
+}
+func (d *verifLocalCert) String() string                { return "" }
+func (d *verifLocalCert) Marshal() ([]byte, error)      { return nil, nil }
+func (d *verifLocalCert) MarshalPEM() ([]byte, error)   { return nil, nil }
+func (d *verifLocalCert) Fingerprint() (string, error)  { return "", nil }
+func (d *verifLocalCert) MarshalJSON() ([]byte, error)  { return nil, nil }
+func (d *verifLocalCert) Copy() cert.Certificate        { c := *d; return &c }
+func (d *verifLocalCert) MarshalPublicKey() []byte      { return nil }
+
+// VerifLocalCert returns a local certificate with the given version and signature bytes.
+func VerifLocalCert(version int, sig []byte) cert.Certificate {
+	return &verifLocalCert{version: cert.Version(version), sig: sig}
+}
+
+type VerifConnMgr struct {
+	Main *HostMap
+	HS   *HandshakeManager
+	F    *Interface
+	CM   *connectionManager
+}
+
+// VerifConnMgrNew wires a connection manager to a hostmap, handshake manager and PKI the way main.go does.
+func VerifConnMgrNew(myAddr netip.Addr, caPool *cert.CAPool) *VerifConnMgr {
+	l := test.NewLogger()
+	hm := newHostMap(l)
+	pr := []netip.Prefix{}
+	hm.preferredRanges.Store(&pr)
+	lh := &LightHouse{l: l, addrMap: map[netip.Addr]*RemoteList{}, queryChan: make(chan netip.Addr, 10), amLighthouse: true}
+	lighthouses := []netip.Addr{}
+	staticList := map[netip.Addr]struct{}{}
+	lh.localAddrsFn = func(*LocalAllowList) []netip.Addr { return nil }
+	lh.lighthouses.Store(&lighthouses)
+	lh.staticList.Store(&staticList)
+	hs := NewHandshakeManager(l, hm, lh, &udp.NoopConn{}, defaultHandshakeConfig)
+	f := &Interface{
+		hostMap:          hm,
+		inside:           &overlaytest.NoopTun{},
+		outside:          &udp.NoopConn{},
+		firewall:         &Firewall{},
+		lightHouse:       lh,
+		pki:              &PKI{},
+		handshakeManager: hs,
+		myVpnAddrs:       []netip.Addr{myAddr},
+		l:                l,
+	}
+	hs.f = f
+	f.pki.cs.Store(&CertState{initiatingVersion: cert.Version1, privateKey: []byte{}})
+	f.pki.caPool.Store(caPool)
+	conf := config.NewC(l)
+	punchy := NewPunchyFromConfig(l, conf, nil)
+	cm := newConnectionManagerFromConfig(l, conf, hm, punchy)
+	cm.intf = f
+	f.connectionManager = cm
+	return &VerifConnMgr{Main: hm, HS: hs, F: f, CM: cm}
+}
+
+// VerifSetConfig sets what the reload callbacks set.
+func (v *VerifConnMgr) VerifSetConfig(dropInactive bool, inactivityTimeout time.Duration, disconnectInvalid bool) {
+	v.CM.dropInactive.Store(dropInactive)
+	v.CM.inactivityTimeout.Store(int64(inactivityTimeout))
+	v.F.disconnectInvalid.Store(disconnectInvalid)
+}
+
+// VerifSetCertState replaces the local certificate state (what a certificate reload does).
+func (v *VerifConnMgr) VerifSetCertState(v1, v2 cert.Certificate, initiatingVersion int) {
+	v.F.pki.cs.Store(&CertState{v1Cert: v1, v2Cert: v2, initiatingVersion: cert.Version(initiatingVersion), privateKey: []byte{}})
+}
+
+// VerifAddTunnel registers an established tunnel the way the handshake manager does (unlockedAddHostInfo under the lock).
+func (v *VerifConnMgr) VerifAddTunnel(addr netip.Addr, local, remote uint32, myCert cert.Certificate, peerCert *cert.CachedCertificate, withConnState bool) *HostInfo {
+	h := &HostInfo{
+		vpnAddrs:        []netip.Addr{addr},
+		localIndexId:    local,
+		remoteIndexId:   remote,
+		HandshakePacket: map[uint8][]byte{},
+		relayState:      RelayState{relayForByAddr: map[netip.Addr]*Relay{}, relayForByIdx: map[uint32]*Relay{}},
+	}
+	if withConnState {
+		h.ConnectionState = &ConnectionState{myCert: myCert, peerCert: peerCert}
+	}
+	v.Main.Lock()
+	v.Main.unlockedAddHostInfo(h, v.F)
+	v.Main.Unlock()
+	return h
+}
+
+func (v *VerifConnMgr) VerifIn(h *HostInfo)  { v.CM.In(h) }
+func (v *VerifConnMgr) VerifOut(h *HostInfo) { v.CM.Out(h) }
+
+func VerifSetCounter(h *HostInfo, n uint64) {
+	if h.ConnectionState != nil {
+		h.ConnectionState.messageCounter.Store(n)
+	}
+}
+
+func VerifFlags(h *HostInfo) (in, out, pendingDeletion bool, local uint32) {
+	return h.in.Load(), h.out.Load(), h.pendingDeletion.Load(), h.localIndexId
+}
+
+func (v *VerifConnMgr) VerifMakeTrafficDecision(localIndex uint32, now time.Time) (int, *HostInfo, *HostInfo) {
+	d, h, p := v.CM.makeTrafficDecision(localIndex, now)
+	return int(d), h, p
+}
+
+func (v *VerifConnMgr) VerifDoTrafficCheck(localIndex uint32, now time.Time) {
+	v.CM.doTrafficCheck(localIndex, []byte(""), make([]byte, 12, 12), make([]byte, mtu), now)
+}
+
+func (v *VerifConnMgr) VerifShouldSwapPrimary(h *HostInfo) bool { return v.CM.shouldSwapPrimary(h) }
+
+// VerifConnMgrDump returns the per-address tunnel lists, the index map and the addresses with a pending handshake.
+func (v *VerifConnMgr) VerifConnMgrDump() (lists map[netip.Addr][]*HostInfo, idx map[uint32]*HostInfo, pending []netip.Addr) {
+	v.Main.RLock()
+	lists = map[netip.Addr][]*HostInfo{}
+	for a := range v.Main.Hosts {
+		lists[a] = append([]*HostInfo{}, v.Main.unlockedGetHostList(a)...)
+	}
+	idx = map[uint32]*HostInfo{}
+	for i, h := range v.Main.Indexes {
+		idx[i] = h
+	}
+	v.Main.RUnlock()
+	v.HS.RLock()
+	for a := range v.HS.vpnIps {
+		pending = append(pending, a)
+	}
+	v.HS.RUnlock()
+	return
+}
